@@ -1,0 +1,18 @@
+//go:build verif
+
+package response
+
+// Contracts for the deductive verifier in /verif (govc). Comment-only file: adds no code.
+
+// WriteHeader: the status is passed on, and the response's status (the first non-informational one; 1xx
+// headers are interim and followed by the real status) is what the integrations read from Code afterwards.
+//@ func (*WithCodeResponseWriter).WriteHeader
+//@   prop C01, C09
+//@   ensures [passed-on] calls(w.Writer.WriteHeader, statusCode) == 1
+//@   ensures [final-status-recorded] old(w.Code) < 200 && statusCode >= 200 ==> w.Code == statusCode
+//@   ensures [first-status-recorded] old(w.Code) == 0 ==> w.Code == statusCode
+
+// Write: passes the body on and leaves the recorded status alone.
+//@ func (*WithCodeResponseWriter).Write
+//@   prop C01, C09
+//@   ensures [passed-on] calls(w.Writer.Write, bytes) == 1 && result0 == ret(Write, 0) && w.Code == old(w.Code)
